@@ -116,6 +116,19 @@ def _instance(spec, emit, name, rng, base, first):
 
     # two compiled instances: one initialised densely, one sparsely (initialisation state must not leak)
     cdf_d, cdf_s = C.compiled(df), C.compiled(df)
+    # history: in half of the instances both objects were initialised before on other data of the same shape (a second
+    # initialisation must replace everything the first one stored)
+    if rng.random() < 0.5:
+        try:
+            X2 = C.make_X(rng, n, p, "gauss", density=0.7)
+            y2 = C.make_target(rng, X2, C.TARGET_KIND[name], n_tasks=n_tasks, ties=True)
+            X2s = C.to_storage(X2, "csc")
+            if has("initialize"):
+                cdf_d.initialize(X2, y2)
+            if has("initialize_sparse"):
+                cdf_s.initialize_sparse(X2s.data, X2s.indptr, X2s.indices, y2)
+        except Exception:
+            pass        # whatever goes wrong on the other data is judged when it is the data under test
     try:
         if has("initialize"):
             cdf_d.initialize(X, y)
